@@ -17,7 +17,10 @@ EXPLANATION = (
     "channel-end (both ends), call-abort and introspection cleanup; (R3) the ShutdownBroker arm queues every connection with send_shutdown=true "
     "and sets shutdown_now, shutdown_connection sends Shutdown only under that flag, the run loop exits only under "
     "shutdown_now || (shutdown_idle && conns.is_empty()); (R4) every exit of Connection::run passes through client_shutdown / client_error / "
-    "broker_shutdown (which notify the broker) or is the broker-gone case. "
+    "broker_shutdown (which notify the broker) or is the broker-gone case; (R5) the per-connection mirror of channel ends stays in step with the channel: "
+    "every caller of remove_channel_end names the owning connection (so its senders / receivers set is updated) unless the call is dominated by evidence "
+    "that the end is unclaimed (SendItemError::ReceiverUnclaimed, or the claimed flag of Channel::check_close being false) — a stale mirror entry makes the "
+    "later teardown of that connection close the end a second time. "
     "Not decided: absence of residual state over all histories and fault points; the dropped-task case is lazy by design."
 )
 
@@ -41,6 +44,7 @@ def run(rep):
             r2(rep, prog, tab)
             r3(rep, prog)
             r4(rep, prog)
+            r5(rep, prog)
 
 
 # ---- R1 ---------------------------------------------------------------------------------------
@@ -268,3 +272,40 @@ def r4(rep, prog):
         hb = prog.find(r"^aldrin_broker::conn::Connection::<T>::%s::\{closure#0\}$" % helper)
         rep.check(len(hb) == 1 and any(c.name == "send_broker_shutdown" for c in hb[0].calls), "C09-R4", "aldrin_broker::conn::Connection::" + helper, "notifies-broker",
                   "%s must call send_broker_shutdown" % helper, detail={})
+
+
+UNCLAIMED_EVIDENCE = [
+    re.compile(r"^ReceiverUnclaimed=discr\(Channel::send_item\("),
+    re.compile(r"^False=Channel::check_close\(.*\)\.1$"),
+]
+
+
+def r5(rep, prog):
+    n = 0
+    n_none = 0
+    for d, b in sorted(prog.bodies.items()):
+        for c in b.calls:
+            if c.name != "remove_channel_end" or not (c.callee or "").startswith("aldrin_broker::broker::Broker"):
+                continue
+            n += 1
+            orgs = b.origins(c.args[4])
+            bad = []
+            for o in orgs:
+                if o[0] == "agg":
+                    r = b.blocks[o[1]]["s"][o[2]]["r"]
+                    if r.get("adt", "").endswith("::Option") and r.get("variant") == "Some":
+                        continue
+                    if r.get("adt", "").endswith("::Option") and r.get("variant") == "None":
+                        n_none += 1
+                        gs = b.guard_strings(o[1])
+                        if any(rx.search(g) for rx in UNCLAIMED_EVIDENCE for g in gs):
+                            continue
+                        bad.append("None without unclaimed evidence")
+                        continue
+                bad.append("owner of unknown origin %s" % (o,))
+            end = "|".join(sorted(x.replace("ChannelEnd::", "").replace("()", "") for x in b.describe(c.args[3])))
+            rep.check(not bad, "C09-R5", b.def_, "owner-mirror:%s" % end,
+                      "remove_channel_end is called without the owning connection (%s): the channel end is closed but the cookie stays in the connection's senders/receivers set, so tearing the connection down closes the end again" % "; ".join(bad),
+                      line=c.line, detail={"owner": sorted(b.describe(c.args[4]))})
+    rep.floor("C09-R5", "remove_channel_end call sites", n, 7)
+    rep.floor("C09-R5", "None-owner sites with unclaimed evidence", n_none, 2)
